@@ -173,6 +173,28 @@ CHECKS = {
 PENDING_REASON = "check not built yet (planned in DESIGN.md section {ref}); not claimed until it runs"
 
 
+# what round 11 (DESIGN.md §7.5) added to the explored domain of each check; appended to the level text
+EXTRA = {
+    "C01": " Also: every decoding result is edited in place and the same bytes decoded again (reference rebuilt from the case); all pairs of 8-bit operand positions crossed with 20 special values (quick) / all 256x256 (thorough).",
+    "C02": " Also: generated encode/edit/encode histories on one Subroutine object (in-place operand edits, element replacement, setters, instantiate, re-decoding) against the reference encoding of a model kept beside it.",
+    "C03": " Also: one program object assembled several times, for several flavours; every result judged by the same oracles and earlier results must not change.",
+    "C05": " Also: handles are read on the host through int operators (int(), ==, arithmetic, bool, hash, comparisons) before .value after an entry changed in a later flush.",
+    "C06": " Also: one template-value dict object kept by the host for every instantiate() of a connection, template names reused across blocks.",
+    "C07": " Also: instances of subclasses of the vanilla gate classes; histories in which returned matrices are edited in place and asked for again; emitted lists edited and the transpilation repeated.",
+    "C10": " Also: hardware configurations that are instances of subclasses; recv_measure after earlier requests (also with post routines) on the same socket, with an independent outcome oracle.",
+    "C11": " Also: bool-valued response fields, a previous application on the same controller, purpose ids that depend on the remote socket registered by setup_epr_socket.",
+    "C12": " Also: two or three subroutines of one application in progress at once (registers shared), wait instructions judged by the entries named at instruction start; responses delivered as instances of subclasses of the qlink 1.0 classes.",
+    "C13": " Also: an application stopped and registered again while one of its subroutines is suspended in a wait, then resumed.",
+    "C14": " Also: flush windows of 0..16 register-kept measurement outcomes starting with the connection's first subroutine.",
+    "C15": " Also: every integer field and array entry carried by bool, int subclasses and numpy integers of every width, arrays as list/tuple/ndarray.",
+    "C16": " Also: a valid program (built, decoded, parsed, copied; encoded before or not) whose operand is changed to an unrepresentable value in place or by replacement must still be rejected.",
+    "C17": " Also: numpy integer immediates; print/parse/edit-in-place/print histories on instructions and whole subroutines.",
+    "C18": " Also: received structured messages overwritten by the receiver and equal messages repeated; callback sockets that inherit recv_callback; a peer that closes and returns while the survivor inspects the connection; a send must not be refused while both ends are open.",
+    "C19": " Also: angles as numpy.float64 and float subclasses; SDK programs on NV hardware in which the k-th qubit must receive exactly the steps of the rotations requested on it, on an allocated address.",
+    "C20": " Also: angles as int / numpy scalars; qubit lists in any id order reused for a second parity measurement (projective repeatability) and shared between calls of a session.",
+}
+
+
 def main():
     checks = []
     na = []
@@ -186,7 +208,7 @@ def main():
                     "evidence_file": f"/verif/evidence/{pid}.json",
                     "replay_cmd_template": f"/venv/bin/python run_check.py {pid} --replay {{path}}",
                     "engine": "pbt",
-                    "level_claimed": {"category": c["category"], "text": c["text"], "design_ref": "DESIGN.md §" + c["ref"]},
+                    "level_claimed": {"category": c["category"], "text": c["text"] + EXTRA.get(pid, ""), "design_ref": "DESIGN.md §" + c["ref"]},
                     "level_note": c["note"] or "see DESIGN.md",
                     "technique": c["technique"],
                 }
